@@ -69,33 +69,50 @@ def key(i):
 
 
 def run_crash_workload(ctx, steps, tag, manual=0, power_loss=True, two_ks=False):
-    """steps: list of 'w' (insert next key), 'b' (batch of two next keys, over both keyspaces when two_ks), 'p:<mode>', 'x' (crash point).
-    Returns (violated, replay_path, detail).  Oracle: at every crash point the recovered key set is a prefix of the write
-    sequence (batches atomic) that contains every write acknowledged before the last successful sync-level persist
-    (power loss) / every acknowledged write (process crash, automatic persist) / every write before the last persist(buffer) (manual)."""
-    L = ['dir $DIR/db', f'open workers=0 manual_persist={manual}', f'ks a manual={manual}'] + ([f'ks b manual={manual}'] if two_ks else [])
+    """steps: 'w' insert next key into a · 'v' insert next key into b · 'b' batch of two next keys (over a and b when two_ks) · 'c' clear a ·
+    'r' rotate a's memtable and run the worker (journal rotation is forced at that flush tick) · 'p:<mode>' persist · 'x' crash point.
+    Returns (violated, replay_path, detail).  Oracle: at every crash point the recovered content of all keyspaces equals the state after some PREFIX
+    of the acknowledged operations, and that prefix contains every operation acknowledged before the last successful sync-level persist (power loss) /
+    every acknowledged operation (process crash, automatic persist) / every operation before the last persist (manual)."""
+    two_ks = two_ks or any(s_ in ('v',) for s_ in steps)
+    rot = any(s_ == 'r' for s_ in steps)
+    L = ['dir $DIR/db', f'open workers=0 manual_persist={manual}'] + (['rotation_threshold 0'] if rot else []) + [f'ks a manual={manual}'] + ([f'ks b manual={manual}'] if two_ks else [])
     n = 0; mark = 0
-    units = []          # each unit = list of (ks, key)
-    req_power = []      # number of units that must be durable at each crash point (power loss)
-    req_proc = []       # ... that must survive a process crash
+    states = [{'a': {}, 'b': {}}]        # states[i] = content after i acknowledged units
+    descr = []
+    req_power = []; req_proc = []
     synced = 0; flushed = 0
+
+    def push(fn, what):
+        import copy
+        st = copy.deepcopy(states[-1]); fn(st); states.append(st); descr.append(what)
     for s in steps:
-        if s == 'w':
-            n += 1; L.append(f'insert a {key(n)} {31 + 0:02x}'); units.append([('a', key(n))])
+        if s in ('w', 'v'):
+            n += 1; ksn = 'a' if s == 'w' else 'b'; k = key(n)
+            L.append(f'insert {ksn} {k} 31'); push(lambda st, ksn=ksn, k=k: st[ksn].__setitem__(k, '31'), f'insert {ksn} {k}')
             if not manual:
-                flushed = len(units)
+                flushed = len(states) - 1
         elif s == 'b':
             k1, k2 = key(n + 1), key(n + 2); n += 2
             ksb = 'b' if two_ks else 'a'
-            L.append(f'batch2 a {k1} 42 {ksb} {k2} 42'); units.append([('a', k1), (ksb, k2)])
+            L.append(f'batch2 a {k1} 42 {ksb} {k2} 42')
+            push(lambda st, k1=k1, k2=k2, ksb=ksb: (st['a'].__setitem__(k1, '42'), st[ksb].__setitem__(k2, '42')), f'batch a:{k1} {ksb}:{k2}')
             if not manual:
-                flushed = len(units)
+                flushed = len(states) - 1
+        elif s == 'c':
+            L.append('clear a'); push(lambda st: st['a'].clear(), 'clear a')
+            if not manual:
+                flushed = len(states) - 1
+        elif s == 'r':
+            L += ['rotate a', 'worker_drain']
+            # rotating the journal persists the sealed journal with SyncAll (Writer::rotate): everything acknowledged so far is durable afterwards
+            flushed = len(states) - 1; synced = len(states) - 1
         elif s.startswith('p:'):
             mode = s[2:]
             L.append(f'persist {mode}')
-            flushed = len(units)
+            flushed = len(states) - 1
             if mode in ('syncdata', 'syncall'):
-                synced = len(units)
+                synced = len(states) - 1
         elif s == 'x':
             mark += 1
             L.append(f'mark {mark}'); L.append(f'copydir $DIR/db $DIR/img{mark}')
@@ -113,13 +130,11 @@ def run_crash_workload(ctx, steps, tag, manual=0, power_loss=True, two_ks=False)
         errs = [(c, r) for _i, c, r in out if r.startswith('err')]
         if errs:
             return False, spath, f'workload did not run cleanly: {errs[:2]}'
-        from . import crashimg as _ci
         for m in range(1, mark + 1):
             img = os.path.join(work, f'img{m}')
             if power_loss:
                 durable, _pos = durable_lengths(trace, m)
                 cut_image(img, os.path.join(work, 'db'), durable)
-            # recover the image
             L2 = [f'dir {img}', f'open workers=0 manual_persist={manual}', 'ks a'] + (['ks b'] if two_ks else []) + ['dump a'] + (['dump b'] if two_ks else []) + ['close']
             sp2, out2 = ctx.run_scenario('\n'.join(L2) + '\n', tag=f'{tag}-img{m}')
             if any(c == 'CRASH' for _i, c, _r in out2):
@@ -128,21 +143,22 @@ def run_crash_workload(ctx, steps, tag, manual=0, power_loss=True, two_ks=False)
             if not opens or opens[0] != 'ok':
                 return True, sp2, f'reopening the {"power-loss" if power_loss else "process-crash"} image #{m} fails: {opens}'
             dumps = [r for _i, c, r in out2 if c == 'dump']
-            got = {}
+            got = {'a': {}, 'b': {}}
             for ksn, d in zip(['a', 'b'], dumps):
-                got[ksn] = set(x.split(':')[0] for x in d[1:-1].split(',') if x)
-            present = [all(k in got.get(ks, set()) for ks, k in u) for u in units]
-            partial = [any(k in got.get(ks, set()) for ks, k in u) and not all(k in got.get(ks, set()) for ks, k in u) for u in units]
-            if any(partial):
-                i = partial.index(True)
-                return True, sp2, f'image #{m}: batch {units[i]} was recovered partially ({got})'
-            j = sum(1 for x in present if x)
-            if present != [True] * j + [False] * (len(units) - j):
-                return True, sp2, f'image #{m}: recovered units {present} are not a prefix of the commit sequence'
+                for x in d[1:-1].split(','):
+                    if x:
+                        kk, vv = x.split(':'); got[ksn][kk] = vv
+            if not two_ks:
+                got['b'] = {}
+            upto = len(states) - 1
+            match = [j for j in range(len(states)) if states[j] == got]
             need = req_power[m - 1] if power_loss else req_proc[m - 1]
-            if j < need:
+            kind = 'power loss' if power_loss else 'process crash'
+            if not match:
+                return True, sp2, f'image #{m} ({kind}): the recovered content {got} is the state after no prefix of the acknowledged operations {descr} (steps {steps})'
+            if max(match) < need:
                 what = 'made durable by a successful sync-level persist' if power_loss else 'acknowledged / flushed'
-                return True, sp2, f'image #{m} ({"power loss" if power_loss else "process crash"}): only {j} of the {need} writes {what} were recovered (steps {steps})'
+                return True, sp2, f'image #{m} ({kind}): the recovered content is the state after {max(match)} operations, but {need} operations were {what}: lost {descr[max(match):need]} (steps {steps})'
         return False, spath, 'held natively'
     finally:
         shutil.rmtree(work, ignore_errors=True)
